@@ -16,17 +16,26 @@ class C09(Prop):
                 # stream gets exactly those, the new one exactly the later ones (oracle + field-by-field comparison with MExec.v);
                 # and 1-2 listeners polled under the scheduler (oracle only)
                 Suite("log_channel_old_new", execgen.HEADER, [execgen.gen_logcase(rng) for _ in range(n // 4)]),
-                Suite("log_channel_listeners(oracle only)", "", [multigen.gen_fixed(rng, "mmap_log") for _ in range(n // 5)], compare=False)]
+                Suite("log_channel_listeners(oracle only)", "", [multigen.gen_fixed(rng, "mmap_log") for _ in range(n // 5)], compare=False),
+                # an old / new pair of streams created WHILE producers are sending: every shared access of the creation is a scheduling point, so
+                # sends complete in the middle of it; the two streams must still partition the history at one point (oracle only)
+                Suite("log_channel_split_under_sends(oracle only)", "", [multigen.gen_split(rng) for _ in range(n // 3)], compare=False)]
     def oracle(self, case, recs):
         if case.meta.get("profile") == "mlog": return execgen.oracle_mlog(case, recs)
+        if any(n == "split" for p in case.meta.get("progs", []) for n, a in p): return multigen.oracle_split(case, recs)
         if case.meta.get("profile") == "fixed": return multigen.oracle_fixed(case, recs)
         return loggen.oracle(case, recs)
     def nontrivial(self, case, recs):
         if case.meta.get("profile") == "mlog": return 0 < case.meta["old"] < len(case.meta["items"])
+        if case.meta.get("profile") == "split": return any(r[0] == "ret" and r[2] == 12 for r in recs)
         if case.meta.get("profile") == "fixed": return True
         return loggen.nontrivial(case, recs)
     def parse_replay(self, text):
         lines = [l for l in text.splitlines() if l.strip() and not l.startswith("#")]
         if all(l.startswith("mexec") for l in lines): return Suite("replay", "", [execgen.parse_case_line(l) for l in lines], compare=False)
-        if all(l.startswith("multi") for l in lines): return Suite("replay", "", [multigen.parse_case_line(l) for l in lines], compare=False)
+        if all(l.startswith("multi") for l in lines):
+            cs = [multigen.parse_case_line(l) for l in lines]
+            for c in cs:
+                if not any(n == "split" for p in c.meta.get("progs", []) for n, a in p): c.meta.setdefault("profile", "fixed")
+            return Suite("replay", "", cs, compare=False)
         return Suite("replay", loggen.HEADER, [loggen.parse_case_line(l) for l in lines])
